@@ -456,7 +456,7 @@ Definition a_rec_ok (a : astate) (k : rkind) : bool :=
   | KInsert _ s b => match snd (astep a (PInsertAt s b)) with OInserted i => i =? s | _ => false end
   | KMark _ s => match snd (astep a (PMark s)) with OMarked _ => true | _ => false end
   | KApply _ s b => match a_at a s with Some (Some (b', _)) => eqb_bytes b b' | _ => false end
-  | KRollback _ s => match a_at a s with Some (Some _) => true | _ => false end
+  | KRollback _ s => match a_at a s with Some (Some (_, true)) => true | _ => false end
   | KUpdate _ s old new =>
       match snd (astep a (PUpdate s new true)) with OUpdated o => eqb_bytes o old | _ => false end
   | _ => true
@@ -475,7 +475,7 @@ Definition spre (v : aentry) (k : rkind) : Prop :=
   | KInsert _ _ _ => v = None
   | KMark _ _ => exists b, v = Some (b, false)
   | KApply _ _ b => exists m, v = Some (b, m)
-  | KRollback _ _ => exists b m, v = Some (b, m)
+  | KRollback _ _ => exists b, v = Some (b, true)
   | KUpdate _ _ old _ => v = Some (old, false)
   | _ => True
   end.
@@ -505,9 +505,9 @@ Proof.
     assert (Hv : aval a s0 = Some (b, m)) by (unfold aval; rewrite E; reflexivity).
     split; [exists m; exact Hv|]. intros s. cbn [fst]. rewrite (aval_set_at _ _ _ _ _ E). reflexivity.
   - (* rollback *)
-    cbn [astep]. destruct (a_at a s0) as [[[b' m]|]|] eqn:E; try discriminate.
-    assert (Hv : aval a s0 = Some (b', m)) by (unfold aval; rewrite E; reflexivity).
-    split; [exists b', m; exact Hv|]. intros s. cbn [fst]. rewrite (aval_set_at _ _ _ _ _ E), Hv. reflexivity.
+    cbn [astep]. destruct (a_at a s0) as [[[b' [|]]|]|] eqn:E; try discriminate.
+    assert (Hv : aval a s0 = Some (b', true)) by (unfold aval; rewrite E; reflexivity).
+    split; [exists b'; exact Hv|]. intros s. cbn [fst]. rewrite (aval_set_at _ _ _ _ _ E), Hv. reflexivity.
   - (* update *)
     cbn [astep] in *. destruct (blen new =? 0); [discriminate|].
     destruct (a_at a s0) as [[[old' [|]]|]|] eqn:E; try discriminate.
